@@ -133,12 +133,20 @@ def localize_ids(spec, labels):
     """Explicit ids become a function of (id, label), so that one data_id is
     never shared by nodes holding different data (in place; returns spec)."""
 
+    zero_label = []
+
     def rec(nodes):
         for n in nodes:
             if len(n) > 2 and n[2] and n[2].get("id") is not None:
                 i = n[2]["id"]
                 li = labels.index(n[0]) if n[0] in labels else 99
-                n[2]["id"] = f"{i}:{n[0]}" if isinstance(i, str) else i * 100 + li
+                if i == 0 and not isinstance(i, str):
+                    # the falsy id 0 is kept for the first label that gets it (and its clones)
+                    if not zero_label:
+                        zero_label.append(n[0])
+                    n[2]["id"] = 0 if zero_label[0] == n[0] else 900 + li
+                else:
+                    n[2]["id"] = f"{i}:{n[0]}" if isinstance(i, str) else i * 100 + li
             rec(n[1])
 
     rec(spec)
